@@ -3,8 +3,9 @@
    Model: Model/State.v = scte35/state.go with the F10 repairs of notes/candidate-fixes.patch.
    A history is a list of calls (ProcessDescriptor / Close by pool index, Open); `run` yields one
    observation per call: closed ids, error, ids of Open() after the call; None = the call panicked. *)
-From Gots Require Import Base.Prelude Model.SegDesc Model.State
-  Proofs.SegProofs Proofs.StateBasics Proofs.StateRun Proofs.StateDup Proofs.StateInv Proofs.StateWrites.
+From Gots Require Import Base.Prelude Model.SegDesc Model.State Spec.Trackers
+  Proofs.SegProofs Proofs.StateBasics Proofs.StateRun Proofs.StateDup Proofs.StateInv Proofs.StateWrites Proofs.StateSpec.
+From Gots Require Exec.StateExec.
 Import SegDesc State.
 Local Open Scope nat_scope.
 
@@ -198,6 +199,23 @@ Theorem C10_open_consistent_pts : forall pool cs, Forall (call_in_pool pool) cs 
     writes g <= 10 /\ NoDup (opened g) /\ NoDup (open s) /\ (forall x, In x (open s) -> ~ In x (gone g)).
 Proof. exact open_consistent_pts. Qed.
 Print Assumptions C10_open_consistent_pts.
+
+(* ---- MODEL MEETS SPEC ---- *)
+(* Spec/Trackers.v is the property as a decidable trace checker with ghost sets (processed, gone, opening
+   order, hidden breakaway); it is what bin/check runs on the REAL observations.  For every history over a
+   well-numbered pool (id = position) with at most 10 distinct signal times it accepts what the model does:
+   all 17 clauses hold at every call.  (tcall_of_call / tobs_of_obs are the conversions the executor uses.) *)
+Theorem C10_checker_accepts_model : forall pool, Trackers.pool_ok pool = true ->
+  forall cs, Forall (call_in_pool pool) cs -> distinct_pts pool cs <= 10 ->
+  Trackers.check pool (map StateExec.tcall_of_call cs) (map StateExec.tobs_of_obs (run pool NewState cs)) = None.
+Proof. exact checker_accepts_model. Qed.
+Print Assumptions C10_checker_accepts_model.
+
+(* ... and beyond 10 signal times it does reject: call 11 of the ring history violates clause 8 *)
+Example C10_checker_rejects_ring_history :
+  Trackers.check ring_pool (map StateExec.tcall_of_call ring_script)
+                 (map StateExec.tobs_of_obs (run ring_pool NewState ring_script)) = Some (11, 8)%N.
+Proof. vm_compute. reflexivity. Qed.
 
 (* non-vacuity: a history with a breakaway, a descriptor closing through it, a resumption, an explicit
    close and a duplicate satisfies the hypotheses (indices in the pool, writes <= 10) and shows every
